@@ -1,6 +1,8 @@
 #!/bin/bash
 # usage: try_mutant.sh <patch.diff> <property> [tier]  — applies the patch to /repo, runs the check, ALWAYS reverts
 patch="$1"; prop="$2"; tier="${3:-quick}"
+export VERIF_EVIDENCE_DIR=/tmp/verif-mutant-evidence
+patch="$(realpath "$patch")"
 cd /repo || exit 2
 if [ -n "$(git status --porcelain)" ]; then echo "REPO NOT CLEAN"; git status --short; exit 2; fi
 git apply "$patch" || { echo "PATCH DOES NOT APPLY"; exit 2; }
